@@ -31,13 +31,13 @@ Publish(d, da, vl, dl) ==
                              viol |-> {x.p : x \in vl}, vlog |-> vl, dlog |-> dl]})
 
 TInit ==
-  /\ InitWith([map |-> "none", norm |-> "auto", tbl |-> "mem", defer |-> TRUE, len |-> 0])
+  /\ InitWith([map |-> "none", norm |-> "auto", tbl |-> "mem", defer |-> TRUE, dom |-> "ascii", len |-> 0])
   /\ l = 1 /\ drift = FALSE /\ driftAt = 0 /\ tno = 0 /\ vlog = {} /\ dlog = {}
   /\ TLCSet(1, {})
 
 TReset ==
   /\ IsEv("Cfg")
-  /\ cfg' = [map |-> Ev.map, norm |-> Ev.norm, tbl |-> Ev.tbl, defer |-> Ev.defer, len |-> 0]
+  /\ cfg' = [map |-> Ev.map, norm |-> Ev.norm, tbl |-> Ev.tbl, defer |-> Ev.defer, dom |-> Ev.dom, len |-> 0]
   /\ tbl' = [u \in Users |-> Absent]
   /\ sess' = Closed
   /\ obs' = ObsInit
